@@ -15,6 +15,8 @@ import (
 	"strconv"
 	"strings"
 
+	"github.com/kklash/bitcoinlib/base58"
+	"github.com/kklash/bitcoinlib/base58check"
 	"github.com/kklash/bitcoinlib/bech32"
 	"github.com/kklash/bitcoinlib/bip32"
 	"github.com/kklash/bitcoinlib/blocks"
@@ -670,6 +672,83 @@ func init() {
 		for i := 0; i < r.N(40, 1500); i++ {
 			t, b := r.genTx(3, 3)
 			r.Do("c02.writeto.partial", []string{hx(t.Bytes())}, "writeto-failing-writer", b, "")
+		}
+	})
+}
+
+// ---- text decoders and characters beyond one byte --------------------------------------------------
+//
+// A decoder that ranges over a string by rune and narrows the rune to a byte (or indexes a 256-entry
+// table with it) treats U+0141 'Ł' like 'A'. Such strings are outside every alphabet and must be
+// refused: in a valid encoding, one character c is replaced by the code points c+0x100, c+0x3000 and
+// c+0x10000 (two-, three- and four-byte UTF-8), which agree with c in their low eight bits.
+
+func wideRuneVariants(s string, r *Runner, n int) []string {
+	var out []string
+	if len(s) == 0 {
+		return nil
+	}
+	for k := 0; k < n; k++ {
+		i := r.rng.Intn(len(s))
+		if s[i] >= 0x80 {
+			continue
+		}
+		for _, off := range []rune{0x100, 0x3000, 0x10000} {
+			out = append(out, s[:i]+string(rune(s[i])+off)+s[i+1:])
+		}
+	}
+	return out
+}
+
+func init() {
+	regExtra("C08", func(r *Runner) {
+		for i := 0; i < r.N(20, 300); i++ {
+			d := r.bytesN(1 + r.rng.Intn(40))
+			for _, v := range wideRuneVariants(base58.Encode(d), r, 2) {
+				r.Do("b58.dec", []string{sx(v)}, "b58-dec-wide-rune", true, "a character replaced by a code point with the same low byte")
+			}
+			for _, v := range wideRuneVariants(base58check.Encode(d), r, 2) {
+				r.Do("b58c.dec", []string{sx(v)}, "b58c-dec-wide-rune", true, "")
+			}
+			hrp := []string{"bc", "tb", "a", "ltc", "split"}[i%5]
+			if e, err := bech32.Encode(hrp, 0, r.bytesN(20+12*(i%2))); err == nil {
+				for _, v := range wideRuneVariants(e, r, 2) {
+					r.Do("bech32.dec", []string{sx(v)}, "bech32-dec-wide-rune", true, "")
+				}
+			}
+		}
+	})
+}
+
+func init() {
+	// C03: script codes whose length sits on a compact-size boundary (the length prefix of the script
+	// code is part of both preimages), as plain opcodes and as one push filling the script
+	regExtra("C03", func(r *Runner) {
+		lens := []int{0, 1, 0x4b, 0x4c, 0x4d, 0xfb, 0xfc, 0xfd, 0xfe, 0xff, 0x100, 0x101, 0x1ff}
+		if r.tier != "quick" {
+			lens = append(lens, 0xffff, 0x10000, 0x10001)
+		} else {
+			lens = append(lens, []int{0xffff, 0x10000, 0x10001}[int(r.res.Seed%3+3)%3])
+		}
+		for _, l := range lens {
+			t, _ := r.genTx(2, 2)
+			enc := hx(t.Bytes())
+			var scripts [][]byte
+			scripts = append(scripts, bytes.Repeat([]byte{0x61}, l)) // OP_NOP
+			if l >= 3 && l-3 <= 0xffff {
+				s := append([]byte{0x4d, byte(l - 3), byte((l - 3) >> 8)}, r.bytesN(l-3)...)
+				scripts = append(scripts, s)
+			}
+			for _, sc := range scripts {
+				for _, ht := range []uint32{1, 3, 0x82} {
+					args := []string{enc, "0", hx(sc), strconv.FormatUint(uint64(ht), 10)}
+					r.Do("sighash.legacy", args, "legacy-script-length-boundary", true, fmt.Sprintf("script code of %d bytes", l))
+					r.Do("sighash.legacy.spec", args, "legacy-script-length-boundary-spec", true, "")
+					wargs := append(append([]string{}, args...), strconv.FormatUint(r.u64(), 10))
+					r.Do("sighash.bip143", wargs, "bip143-script-length-boundary", true, fmt.Sprintf("script code of %d bytes", l))
+					r.Do("sighash.bip143.spec", wargs, "bip143-script-length-boundary-spec", true, "")
+				}
+			}
 		}
 	})
 }
